@@ -6,7 +6,7 @@ LEVEL = "proof"
 TEXT = ("`validateParamsExist o = [] <-> every (referrer, name) in paramRefs o is declared` (and the same for services), the count of diagnostics = count of dangling "
         "occurrences, todo services are declared and refer to nothing: Lean theorems for every compiled configuration, with paramRefs enumerating parameters, "
         "service arguments/calls/fields and decorator arguments. Tied by running model and implementation on generated configurations in which references are "
-        "removed/renamed in every position, singly and combined; the implementation's verdict is also judged by an independent reference walker in Python.")
+        "removed/renamed in every position, singly and combined; the implementation's verdict is also judged by an independent reference walker in Python. pattern_deps_all_refs: the recorded parameter dependencies of a compiled pattern are exactly the references among its tokens, in any position. The run-time consequence is exercised: accepted containers are built and asked for every service, parameter and tag — no answer may say "does not exist".")
 TECHNIQUE = "Lean 4 theorems (list/filter reasoning over the compiled output) + model-vs-implementation correspondence on reference mutations in every position"
 LEAN_PROPS = ["C06"]
 TRUSTED = ["resolver DependsOn* lists vs what the emitted code dereferences: compared structurally in `compile` correspondence (code strings and dependency lists)"]
@@ -141,6 +141,25 @@ def run(ctx, n=None):
         dist["accepted"] += not (a["params"] or a["services"])
         if a["params"] or a["services"]:
             nontriv.add(core.canon([sorted(a["params"]), sorted(a["services"])]))
+    # the rule does not depend on the output mode: with --stub (and without any ignore flag) the same dangling references
+    # are rejected with the same diagnostics
+    import os, shutil
+    sd = os.path.join(ctx.scratch(), "c06stub")
+    os.makedirs(sd, exist_ok=True)
+    dist["stub_mode_cases"] = 0
+    for k, cfg in enumerate(fixed[:2] + [mutate(ctx.rng, gen.gen_config(ctx.rng)) for _ in range(4 if ctx.quick else 40)]):
+        cfg.setdefault("meta", {}).setdefault("imports", {"fx": gen.FX})
+        fn = os.path.join(sd, "c%d.yaml" % k)
+        open(fn, "w").write(gen.yaml_doc(cfg))
+        outs = []
+        for fl in ([], ["--stub"]):
+            rc, so, se = core.cli(["build", "-i", fn, "-o", os.path.join(sd, "o%d%s.go" % (k, "s" if fl else ""))] + fl, cwd=sd)
+            lines = sorted(l.split(". ", 1)[-1] for l in so.splitlines() if "does not exist" in l)
+            outs.append((rc, lines))
+        dist["stub_mode_cases"] += 1
+        if outs[0] != outs[1]:
+            violations.append({"sig": "existence:stub-mode", "what": "normal mode: exit %d, %r; --stub: exit %d, %r — the existence rule must not depend on the output mode" % (outs[0][0], outs[0][1][:3], outs[1][0], outs[1][1][:3]), "files": [gen.yaml_doc(cfg)]})
+    shutil.rmtree(sd, ignore_errors=True)
     # the consequence at run time: an accepted container never answers "does not exist" for anything the configuration
     # declares or references (todo parameters/services answer with THEIR error), whatever is asked first
     from vlib import behave
